@@ -801,6 +801,26 @@ pub struct History {
     pub ops: Vec<Op>,
 }
 
+/// Run the operations without the model and observe the result (used by C16).
+pub fn observe_history(h: &History) -> String {
+    let mut ex = Exec::new();
+    for op in &h.ops {
+        // the model bookkeeping is needed to pick live operands; failures are not of interest here
+        if ex.apply(op).is_err() {
+            break;
+        }
+    }
+    let g = &ex.sut.g;
+    let mut obs = String::new();
+    for define_components in [true, false] {
+        match g.encode(EncodeOptions { define_components, validate: false, processor: None }) {
+            Ok(b) => obs.push_str(&format!("bytes:{}", sha_hex(&b))),
+            Err(e) => obs.push_str(&format!("encode-error:{e}")),
+        }
+    }
+    obs
+}
+
 pub fn run_history(h: &History) -> Outcome {
     let mut ex = Exec::new();
     let mut failure = None;
